@@ -3,6 +3,8 @@ import PfVerif.Proofs.C18Pfaf
 import PfVerif.Proofs.C18Digits
 import PfVerif.Proofs.C18Part
 import PfVerif.Proofs.C18Topo
+import PfVerif.Proofs.C18AreaSize
+import PfVerif.Proofs.C18Ok
 /-! # C18 — sub-basin maps are upstream-closed partitions consistent with their outlets
 
 All theorems quantify over every network `ds`, every downstream-first cell order `seq` (`Topo`,
@@ -223,13 +225,82 @@ theorem area_upstream_closed (ds : Array Nat) (seq : List Nat) (usMain : Array N
   obtain ⟨_, h2, _⟩ := area_partition ds seq usMain uparea amin htopo hb
   exact ((h2 j hj).step_down hout).unique (h2 _ (htopo.ds_mem j hj))
 
-/- Full statement NOT proved at algorithm level ("area-based sub-basins that do not end at a pit
-are larger than the threshold" read as: the total cell area carrying the label of a non-pit outlet
-is `> area_min`, when `uparea` is the accumulation of positive cell areas and `seq` is sorted by
-distance to the pit):
-   ∀ o ∈ r.2, ds[o]! ≠ o → labelArea area r.1 r.1[o]! > amin
-It is evaluated on every implementation (and model) output by `areaSizeOK`, whose meaning is: -/
-/-- **size certificate** (direct reading of the executable check) -/
+/-- **size clause at algorithm level** ("area-based sub-basins that do not end at a pit are larger
+than the threshold"): for every network, every downstream-first order `seq` that is sorted by the
+distance to the pit (`rk`; both `order_cells` methods produce such an order, and the loop needs it:
+with an arbitrary downstream-first order the clause is false), every main-upstream map `usMain` (any
+choice of one inflowing cell per cell, or none), and every upstream-area field that is the
+accumulation of non-negative cell areas over the cells of `seq`
+(`uparea[d] = area[d] + Σ_{c ∈ seq, ds c = d, c ≠ d} uparea[c]`, `csum` = conditional sum over a list),
+the total cell area carrying the label of a returned outlet that is not a pit exceeds `area_min`.
+Proof: loop invariant of `areaSeeds` (Proofs/C18AreaInv.lean, C18AreaStep.lean: `upa_out` of a cell
+whose inflowing cells are being processed is bounded above by the area its sub-basin would have if
+the loop stopped now and below by what is left of its own catchment; the big cells of a sub-basin
+form a chain), then `Σ area over the label = uparea[o] - Σ uparea of the outlets directly upstream`
+(Proofs/C18AreaSize.lean). -/
+theorem area_size (ds : Array Nat) (seq : List Nat) (usMain : Array Nat) (uparea area : Array Int)
+    (amin : Int) (rk : Nat → Nat)
+    (htopo : Topo ds seq) (hb : ∀ i ∈ seq, i < ds.size) (hus : usMainOK ds usMain = true)
+    (hsz : uparea.size = ds.size)
+    (hrk : ∀ i ∈ seq, ds[i]! ≠ i → rk i = rk ds[i]! + 1)
+    (hsorted : seq.Pairwise (fun x y => rk x ≤ rk y))
+    (ha0 : ∀ i ∈ seq, 0 ≤ area[i]!)
+    (hacc : ∀ d ∈ seq, uparea[d]! = area[d]! +
+      csum (fun c => decide (ds[c]! = d ∧ c ≠ d)) (fun c => uparea[c]!) seq) :
+    let r := subbasinsArea ds seq usMain uparea amin
+    ∀ o ∈ r.2, ds[o]! ≠ o → labelArea area r.1 r.1[o]! > amin := by
+  intro r
+  obtain ⟨h1, _, h3⟩ := area_partition ds seq usMain uparea amin htopo hb
+  have hlab : ∀ o ∈ r.2, ∃ k : Nat, r.2[k]? = some o ∧ r.1[o]! = (k : Int) + 1 := by
+    intro o ho
+    obtain ⟨k, hk, hko⟩ := List.getElem_of_mem ho
+    have : r.2[k]? = some o := by rw [List.getElem?_eq_getElem hk, hko]
+    exact ⟨k, this, h1 k o this⟩
+  have hsize : r.1.size = ds.size := by
+    show (fillnodataUpstream ds seq (areaSeeds ds seq usMain uparea amin).1 0).size = ds.size
+    simp [fillnodataUpstream, (areaSeeds_inv ds seq usMain uparea amin htopo hb).size]
+  exact area_size_of_labels ds usMain uparea area amin seq rk htopo hb hus hsz hrk hsorted ha0 hacc
+    r.1 hsize h3
+    (fun x hx hxo => area_upstream_closed ds seq usMain uparea amin htopo hb x hx hxo)
+    (fun o ho o' ho' heq => by
+      obtain ⟨k, hk, hl⟩ := hlab o ho
+      obtain ⟨k', hk', hl'⟩ := hlab o' ho'
+      rw [hl, hl'] at heq
+      have : k = k' := by omega
+      subst this
+      rw [hk] at hk'
+      exact Option.some.inj hk')
+    (fun o ho => by
+      obtain ⟨k, _, hl⟩ := hlab o ho
+      rw [hl]; omega)
+
+/-- size clause under the executable hypotheses the op `c18_area` reports (`topo`, `rank_sorted`, `usok`) -/
+theorem area_size_of_check (ds : Array Nat) (seq : List Nat) (usMain : Array Nat) (uparea area : Array Int)
+    (amin : Int) (htopo : isTopo ds seq = true) (hord : rankOrderOK ds seq = true)
+    (hus : usMainOK ds usMain = true) (hsz : uparea.size = ds.size)
+    (ha0 : ∀ i ∈ seq, 0 ≤ area[i]!)
+    (hacc : ∀ d ∈ seq, uparea[d]! = area[d]! +
+      csum (fun c => decide (ds[c]! = d ∧ c ≠ d)) (fun c => uparea[c]!) seq) :
+    let r := subbasinsArea ds seq usMain uparea amin
+    ∀ o ∈ r.2, ds[o]! ≠ o → labelArea area r.1 r.1[o]! > amin :=
+  area_size ds seq usMain uparea area amin (fun i => (seqRanks ds seq)[i]!)
+    (isTopo_sound ds seq htopo).1 (isTopo_sound ds seq htopo).2 hus hsz
+    (rankOrderOK_sound ds seq hord).1 (rankOrderOK_sound ds seq hord).2 ha0 hacc
+
+/-- size clause with every hypothesis executable (`topo`, `rank_sorted`, `usok`, `acc_ok` of the op
+`c18_area`; the last one is evaluated on networks of at most 64 cells) -/
+theorem area_size_of_checks (ds : Array Nat) (seq : List Nat) (usMain : Array Nat) (uparea area : Array Int)
+    (amin : Int) (htopo : isTopo ds seq = true) (hord : rankOrderOK ds seq = true)
+    (hus : usMainOK ds usMain = true) (hacc : accumOK ds seq area uparea = true) :
+    let r := subbasinsArea ds seq usMain uparea amin
+    ∀ o ∈ r.2, ds[o]! ≠ o → labelArea area r.1 r.1[o]! > amin := by
+  unfold accumOK at hacc
+  simp only [Bool.and_eq_true, beq_iff_eq, List.all_eq_true, decide_eq_true_eq] at hacc
+  exact area_size_of_check ds seq usMain uparea area amin htopo hord hus hacc.1
+    (fun i hi => (hacc.2 i hi).1) (fun d hd => (hacc.2 d hd).2)
+
+/-- **size certificate** (direct reading of the executable check; still evaluated on the
+implementation's output in every run) -/
 theorem area_size_cert (ds : Array Nat) (area : Array Int) (amin : Int) (outlets : List Nat)
     (labels : Array Int) (h : areaSizeOK ds area amin outlets labels = true) :
     ∀ o ∈ outlets, ds[o]! = o ∨ labelArea area labels labels[o]! > amin := by
@@ -414,6 +485,42 @@ theorem pfaf_partition (pits : List Nat) (ds : Array Nat) (seq : List Nat) (usMa
         (fun _ => Iff.rfl) (fun o ho => (hget o (hinv.out o ho).1).symm)
     exact ⟨hout, hlab, fun i hi => (hlab i hi).zero_iff hout⟩
 
+/- Full statement NOT proved (`pfaf_ok`: the side condition holds for every genuine upstream-area field,
+which would make `pfaf_partition`, `pfaf_upstream_closed`, `pfaf_link_nonoutlet` unconditional):
+   theorem pfaf_ok … (hd : 1 ≤ depth) (htopo : Topo ds seq) (hb : ∀ i ∈ seq, i < ds.size)
+     (hus : usMainOK ds usMain = true) (hpits : pits.Nodup ∧ ∀ p ∈ pits, p ∈ seq ∧ ds[p]! = p)
+     (hmono : ∀ i ∈ seq, ds[i]! ≠ i → uparea[i]! < uparea[ds[i]!]!)   -- accumulation of positive cell areas
+     (htot : ∀ i ∈ seq, ds[i]! ≠ i → usMain[ds[i]!]! < ds.size)       -- a cell with an inflow has a main upstream cell
+     (h : subbasinsPfafstetter pits ds seq usMain uparea mask depth = some (lab, idxs, tie, ok)) : ok = true
+(no tie-freeness is needed for `ok`; ties only matter for model = code because NumPy's argsort is unstable).
+Proved part: `pfaf_ok_step_partial` below reduces the check made at every inter-basin creation to
+"the confluence cell `idxs_ds[idx]` carries `pfaf_int_ds`". Missing, in the order they would be proved,
+as one joint invariant of `pfInner`/`pfLoop` (each needs the others):
+ (1) fresh codes: a code written by `pfInner (pfaf0, d0)` lies in the block `(pfaf0, pfaf0 + 10^(depth-d0+1))`,
+     blocks of the entries of `labs` are pairwise disjoint and contain no code of `pfaf_branch` above their root
+     (interval arithmetic, `i ≤ 3` because at most four tributaries are selected);
+ (2) hence distinct returned outlets carry distinct codes of `pfaf_branch`, every coded cell has a coded
+     downstream cell, and (with `PfafInv.down`) the cells carrying one code form ONE contiguous chain of
+     main-upstream links above the code's outlet; an inter-basin fill relabels no returned outlet
+     (needs acyclicity: `hmono` along the two paths);
+ (3) inside `pfInner`: every remaining tributary `t` has `pfaf_branch[ds t] = pfaf_int_ds` or its inter-basin
+     outlet already returned; kept by the inter-basin fill because `ds t` lies on the chain above the
+     current confluence — the other position is excluded by `sortDesc_sorted` (keys `uparea[ds ·]`
+     non-increasing) and `hmono`;
+ (4) the selected tributaries are unassigned cells with `usMain[ds t] ≠ t` (from `tributaries` and the
+     recurrence of `streamOrderClassic`), the stem fills do not touch them.
+The flag is evaluated on every run of the model by the harness (`model.ib_ok`). -/
+/-- **the side condition, one step** (partial result towards `pfaf_ok`): in a state that satisfies the
+partition invariant, the check `idx1 < n ∧ (pfaf_branch[idx1] = 0 ∨ pfaf_branch[idx1] = pfaf_int_ds)` made
+when the inter-basin outlet `idx1 = idxs_us_main[d]` above the confluence cell `d` is created succeeds
+whenever `idx1` is a cell, is not yet a returned outlet, and `d` carries `pfaf_int_ds`. -/
+theorem pfaf_ok_step_partial {ds usMain : Array Nat} {so br : Array Int} {idxs : List Nat}
+    (hinv : PfafInv ds usMain so br idxs) (hus : usMainOK ds usMain = true)
+    {d : Nat} {intDs : Int} (hd : d < ds.size) (h1 : usMain[d]! < ds.size) (hni : usMain[d]! ∉ idxs)
+    (hconf : br[d]! = intDs) :
+    (decide (usMain[d]! < ds.size) && (br[usMain[d]!]! == 0 || br[usMain[d]!]! == intDs)) = true :=
+  ib_check_of_conf hinv (usMainOK_spec hus) hd h1 hni hconf
+
 /-- **upstream closed** (Pfafstetter, under the same side condition): a cell of the network that is
 not a returned outlet carries the code of its downstream cell. -/
 theorem pfaf_upstream_closed (pits : List Nat) (ds : Array Nat) (seq : List Nat) (usMain : Array Nat)
@@ -430,7 +537,11 @@ condition): on every other link of the network the two codes are equal, so the r
 "at the first level where the codes differ the downstream digit is odd and smaller" holds trivially.
 Missing for the full link rule: the links `o → ds o` of returned outlets `o` — needs that later
 (deeper-level) writes keep the digits of the levels above, and that the inter-basin below a
-tributary carries a smaller digit (visiting order); evaluated per run by `linkOK` (`pfaf_link_cert`). -/
+tributary carries a smaller digit (visiting order); evaluated per run by `linkOK` (`pfaf_link_cert`).
+Both ingredients are consequences of the joint invariant (1)-(4) listed at `pfaf_ok` above (the code of the
+confluence cell when the `i`-th tributary is labelled is `pfaf0 + 2i·p`, the tributary gets `pfaf0 + (2i+1)·p`,
+the inter-basin above `pfaf0 + (2i+2)·p`; later writes stay inside the block of the code they replace), so the
+link rule and the refinement across depths are blocked by the same missing invariant, not by separate ideas. -/
 theorem pfaf_link_nonoutlet (pits : List Nat) (ds : Array Nat) (seq : List Nat) (usMain : Array Nat)
     (uparea : Array Int) (mask : Option (Array Bool)) (depth : Nat) (hd : 1 ≤ depth)
     (htopo : Topo ds seq) (hb : ∀ i ∈ seq, i < ds.size) (hus : usMainOK ds usMain = true)
@@ -524,6 +635,37 @@ example : subOK exDs [5, 4, 3, 0] #[4, 4, 4, 3, 2, 1, 3] = true ∧
 example : subbasinsArea exDs exSeq #[1, 2, 4, 6, 7, 7, 7] #[7, 6, 3, 2, 1, 1, 1] 1 =
     (#[1, 1, 1, 2, 1, 1, 2], [0, 3]) := by decide
 example : areaSizeOK exDs #[1, 1, 1, 1, 1, 1, 1] 1 [0, 3] #[1, 1, 1, 2, 1, 1, 2] = true := by decide
+-- `area_size` applies to this run (all hypotheses hold) and speaks about the non-pit outlet 3
+example : isTopo exDs exSeq = true ∧ rankOrderOK exDs exSeq = true ∧
+    usMainOK exDs #[1, 2, 4, 6, 7, 7, 7] = true ∧
+    (∀ d ∈ exSeq, #[7, 6, 3, 2, 1, 1, 1][d]! = #[1, 1, 1, 1, 1, 1, 1][d]! +
+      csum (fun c => decide (exDs[c]! = d ∧ c ≠ d)) (fun c => #[7, 6, 3, 2, 1, 1, 1][c]!) exSeq) ∧
+    (3 ∈ (subbasinsArea exDs exSeq #[1, 2, 4, 6, 7, 7, 7] #[7, 6, 3, 2, 1, 1, 1] 1).2 ∧ exDs[3]! ≠ 3) := by
+  decide
+example : labelArea #[1, 1, 1, 1, 1, 1, 1]
+    (subbasinsArea exDs exSeq #[1, 2, 4, 6, 7, 7, 7] #[7, 6, 3, 2, 1, 1, 1] 1).1
+    (subbasinsArea exDs exSeq #[1, 2, 4, 6, 7, 7, 7] #[7, 6, 3, 2, 1, 1, 1] 1).1[3]! > 1 :=
+  area_size_of_check exDs exSeq #[1, 2, 4, 6, 7, 7, 7] #[7, 6, 3, 2, 1, 1, 1] #[1, 1, 1, 1, 1, 1, 1] 1
+    (by decide) (by decide) (by decide) (by decide) (by decide) (by decide) 3 (by decide) (by decide)
+-- the rank-order hypothesis of `area_size` cannot be dropped: on this 12-cell network the order below is
+-- downstream-first but visits cell 9 (two steps above cell 3) before cell 5 (one step above cell 3); the
+-- model then cuts 4, 9 and 5 out of the sub-basin of the non-pit outlet 3, which keeps area 3 = area_min
+-- (uparea = accumulation of `area`, all other hypotheses of `area_size` hold)
+example :
+    let ds : Array Nat := #[0, 0, 0, 0, 3, 3, 3, 0, 0, 6, 5, 9]
+    let seq := [0, 2, 1, 3, 6, 4, 8, 7, 9, 5, 11, 10]
+    let usMain : Array Nat := #[7, 12, 12, 6, 12, 10, 9, 12, 12, 11, 12, 12]
+    let uparea : Array Int := #[33, 3, 4, 18, 4, 5, 7, 3, 2, 6, 4, 3]
+    let area : Array Int := #[3, 3, 4, 2, 4, 1, 1, 3, 2, 3, 4, 3]
+    isTopo ds seq = true ∧ usMainOK ds usMain = true ∧ rankOrderOK ds seq = false ∧
+    (∀ d ∈ seq, uparea[d]! = area[d]! + csum (fun c => decide (ds[c]! = d ∧ c ≠ d)) (fun c => uparea[c]!) seq) ∧
+    (subbasinsArea ds seq usMain uparea 3).2 = [0, 2, 3, 4, 9, 5] ∧
+    areaSizeOK ds area 3 (subbasinsArea ds seq usMain uparea 3).2 (subbasinsArea ds seq usMain uparea 3).1 = false := by
+  decide +kernel
+example : accumOK exDs exSeq #[1, 1, 1, 1, 1, 1, 1] #[7, 6, 3, 2, 1, 1, 1] = true ∧
+    accumOK exDs exSeq #[1, 1, 1, 1, 1, 1, 1] #[7, 6, 3, 2, 1, 2, 1] = false := by decide
+-- a downstream-first order that is NOT sorted by the distance to the pit is rejected by the order check
+example : isTopo exDs [0, 1, 2, 4, 5, 3, 6] = true ∧ rankOrderOK exDs [0, 1, 2, 4, 5, 3, 6] = false := by decide
 -- Pfafstetter, depth 1 and 2
 example : subbasinsPfafstetter [0] exDs exSeq #[1, 2, 4, 6, 7, 7, 7] #[7, 6, 3, 2, 1, 1, 1] none 1 =
     some (#[1, 1, 3, 2, 5, 4, 2], [0, 3, 2, 5, 4], false, true) := by decide
@@ -548,6 +690,13 @@ example : subOK exDs2 [0, 4, 2, 3, 8, 7, 6] #[11, 11, 31, 41, 21, 21, 23, 22, 51
     digitsOK 2 #[11, 11, 31, 41, 21, 21, 23, 22, 51, 51] = true ∧
     linkOK exDs2 2 #[11, 11, 31, 41, 21, 21, 23, 22, 51, 51] = true ∧
     refineOK #[1, 1, 3, 4, 2, 2, 2, 2, 5, 5] #[11, 11, 31, 41, 21, 21, 23, 22, 51, 51] = true := by decide
+-- `pfaf_ok_step_partial` on the state after the pit stem (code 11 on 0-1-2-8-9) and the first tributary
+-- (code 12 on 4-5-6) have been labelled: the inter-basin outlet above the confluence cell 1 is cell 2
+example : (decide (exMain2[1]! < exDs2.size) &&
+      ((#[11, 11, 11, 0, 12, 12, 12, 0, 11, 11] : Array Int)[exMain2[1]!]! == 0 ||
+       (#[11, 11, 11, 0, 12, 12, 12, 0, 11, 11] : Array Int)[exMain2[1]!]! == 11)) = true :=
+  pfaf_ok_step_partial (so := Array.replicate 10 1) (idxs := [0, 4])
+    ⟨by decide, by decide, by decide⟩ (by decide) (by decide) (by decide) (by decide) (by decide)
 -- the certificates reject wrong maps: a swapped pair of inter-basin digits, a digit 0
 example : linkOK exDs2 1 #[3, 3, 1, 4, 2, 2, 2, 2, 5, 5] = false := by decide
 example : digitsOK 2 #[11, 10, 31, 41, 21, 21, 23, 22, 51, 51] = false := by decide
